@@ -176,3 +176,11 @@ impl NumToken for i64 {
 pub fn num_token<T: NumToken>(v: T) -> String {
     v.tok()
 }
+
+/// Contract stand-in for the TERMINAL arm of `register_histogram!` (`Histogram::with_opts($HOPTS)`
+/// + `register(..)`, which do not finish under CBMC, measured): it hands back the options that
+/// reached the terminal arm, so that the DELEGATING arms are judged by what they forward.  The
+/// terminal arm itself is not decided.
+pub fn terminal_histogram_arm(o: crate::HistogramOpts) -> crate::Result<crate::HistogramOpts> {
+    Ok(o)
+}
